@@ -443,7 +443,7 @@ def run_property(pid, tier, seed, only=None):
     exes = {}
     try:
         with ThreadPoolExecutor(max_workers=JOBS) as pool, ThreadPoolExecutor(max_workers=JOBS) as outer:
-            futs = [(j["name"], outer.submit(build, j, pool)) for j in jobs]
+            futs = [(j["name"], outer.submit(build, j, pool)) for j in jobs + [j for j in prop.get("extra_jobs", []) if tier in j.get("tiers", ["quick", "thorough"])]]
             for n, f in futs:
                 exes[n] = f.result()
     except Exception as ex:  # noqa
@@ -634,7 +634,7 @@ def main():
             futs = []
             outer = ThreadPoolExecutor(max_workers=JOBS)
             for pid, prop in PROPS.items():
-                for j in prop["jobs"]:
+                for j in prop["jobs"] + prop.get("extra_jobs", []):
                     if "quick" in j.get("tiers", ["quick", "thorough"]):
                         futs.append((j["name"], outer.submit(build, j, pool)))
             for n, f in futs:
